@@ -112,11 +112,52 @@ PROPS['C02'] = {
     ],
 }
 
+IB = 'crypto::init::__verif_initblocks::'
+PROPS['C06'] = {
+    'level': 'proof',
+    'kani': {
+        'files': {'src/crypto/init.rs': ['kani/initblocks.rs.in']},
+        'harnesses': [
+            K(IB, 'negotiation_len_%d_%d' % (x, y), 'select_algorithm body, both directions, own list of %d and peer list of %d distinct ciphers in any order, every finite non-negative f32 speed (ties, zero, huge), both plain flags: same outcome at both ends; plain iff both flags; chosen cipher is common and its min-speed is maximal; error iff no common cipher and not both plain' % (x, y), fns=['crypto::init::InitState::select_algorithm (whole body as block)'])
+            for x in range(4) for y in range(4)
+        ],
+        'jobs': 16,
+        'harness_timeout': '120m', 'timeout_s': 9000,
+    },
+    'trusted': [
+        'the advertised lists reach select_algorithm unaltered (Ed25519 signature over the handshake message; C01 is not decided)',
+        'a peer may send duplicate or more than three entries on the wire; lists with distinct ciphers only are covered',
+        'NaN speeds are excluded (the property excludes them)',
+    ],
+    'not_decided': ['"altering the lists in transit makes the handshake fail" rests on the signature check in InitMsg::read_from (out of reach, see C01)',
+                    'Crypto::parse_algorithms (String handling: to_uppercase, Vec<String>) is not under contract'],
+}
+
+PROPS['C04'] = {
+    'level': 'proof',
+    'kani': {
+        'files': {'src/crypto/core.rs': ['kani/coreblocks.rs.in', 'kani/core.rs'], 'src/crypto/init.rs': ['kani/initblocks.rs.in']},
+        'harnesses': [
+            K(CORE, 'nonce_increment_is_plus_one', 'Nonce::increment == +1 mod 2^96 for all 2^96 values (every byte-carry boundary)', fns=['crypto::core::Nonce::increment']),
+            K(CORE, 'nonce_order_is_numeric', 'derived Ord on Nonce is the numeric order', fns=['crypto::core::Nonce (derived Ord)']),
+            H_ENC, H_AGR,
+            K(CORE, 'rotate_key_contract', 'a rotated-in key slot starts a fresh sequence in the core\'s own half (bytes 1..=5 zero, 48 arbitrary low bits); other slots keep their counters', fns=['crypto::core::CryptoCore::rotate_key', 'crypto::core::CryptoKey::new', 'crypto::core::Nonce::random']),
+            K(IB, 'nonce_halves_are_opposite', 'for all pairs of 160-bit salted hashes a != b both role expressions give the two ends opposite halves; a == b is stopped by the "Connected to self" test', fns=['crypto::init::InitState::handle_init (blocks: CryptoCore::new half argument x2, self test)']),
+        ],
+    },
+    'trusted': [
+        'unpredictability of the 48 random start bits (ring SystemRandom, stubbed by arbitrary bytes)',
+        '"a rotated-in key is a fresh key" (ECDH) - key material is opaque here',
+        'AEAD axiom for the overflow clause: a datagram opens only under its sealing nonce',
+        'a sender does not reach 2^88 seals on one key (carry into the half marker byte); stated as assumption in seal_then_open_nonce_agreement',
+        'ghost induction: encrypt_block_contract (nonce used = stored counter = old + 1) implies by induction over the seals of one CryptoKey object that no nonce repeats before 2^96 seals',
+    ],
+    'not_decided': ['whole-lifetime schedules of both ends (simultaneous open, renegotiation): the contracts are per key object and per handshake step'],
+}
+
 NOT_APPLICABLE = {
     'C01': 'needs Ed25519 unforgeability plus InitMsg::read_from / InitState::handle_init, which neither back end reaches (150-line TLV parser over Cursor/SmallVec; ring key objects); no contract within reach expresses it',
-    'C04': 'pending',
     'C05': 'all-schedules agreement and recovery of two retransmitting state machines plus a liveness bound: a protocol-level joint invariant and liveness, outside per-function contracts',
-    'C06': 'pending',
     'C07': 'invariant over the product of two RotationStates, eight key slots and in-flight messages with key identity defined through ECDH; liveness clause; not decidable by per-function contracts within reach',
     'C08': 'pending',
     'C09': 'whole-history property of 2-3 nodes over hundreds of seconds; no function-level contract expresses it without being stronger than the property',
